@@ -3,6 +3,7 @@ from __future__ import annotations
 
 import hashlib
 import json
+import uuid as uuid_mod
 from typing import Any, Dict, List, Optional
 
 import pairsetup_env as pe
@@ -20,10 +21,17 @@ TRUSTED = [
     "from the real run; SHA-512 and the SRP arithmetic are recomputed in Lean)",
     "ASSUMED, not proved (DESIGN 2.2): SRP-6a is a PAKE for A != 0 mod N, i.e. only a party that knows the setup "
     "code can produce the expected proof M for a non-degenerate A; SHA-512/HKDF one-wayness, ChaCha20-Poly1305 and "
-    "Ed25519 unforgeability.  These enter C01_symbolic only as the shape of a free term algebra "
-    "(lean/Proofs/PairSetupSym.lean: attacker alone, no honest controller in the picture, a separate symbolic "
-    "accessory that is not tied to the code by the differential run); the concrete theorems are the gate over all "
-    "histories (every O1/O2/O3 needs a good M3 in the current exchange), the algebra of A = 0 mod N and its rejection",
+    "Ed25519 unforgeability.  They enter as ONE explicit hypothesis of C01_symbolic_exec (NoForge: for A != 0 mod N no "
+    "term computable without the code / honest secrets / session secrets denotes the expected proof; attacker = "
+    "Dolev-Yao, accessory = the executable PairSetup.step that this run ties to pyhap) and as the shape of the free "
+    "term algebra in C01_symbolic / C01_mitm_pairing_origin (symbolic accessory and honest controller; only the "
+    "expected-proof format is tied to the executable model, C01_symbolic_format) and as NoForgeE in C01_end_to_end "
+    "(executable accessory + attacker in the middle + honest controller).  The concrete theorems are the gate "
+    "over all histories in terms of the setup code (C01_gate_code: every O1 answers the closed-form SRP-6a proof for "
+    "the code configured at the M1, every O2/O3 an M5 sealed under the key of that demonstration), the algebra of "
+    "A = 0 mod N and its rejection",
+    "the specification predicates of the theorems (goodM3, ghost exchange / demonstrating A) are reported by the Lean "
+    "driver per request and compared with harness/ref/srp_client.server_expected (reference SERVER formulas)",
     "harness/ref/srp_client.py + pairsetup_client.py + tlv8.py: independent reference (oracle, attacker computations)",
 ]
 
@@ -99,6 +107,11 @@ def op_unpair(rng, **kw):
     return _base(rng, "unpair", **kw)
 
 
+def op_life(rng, seq=("start",), **kw):
+    """the application starts / stops / restarts the SAME driver object (real async_start / async_stop on its own loop)"""
+    return _base(rng, "life", seq=list(seq), **kw)
+
+
 def op_seq(rng, byte, **kw):
     return _base(rng, "seq", byte=byte, **kw)
 
@@ -151,6 +164,12 @@ def boundary_plans(rng) -> List[Dict[str, Any]]:
     for sub in ("badsig", "wrongid", "malformed", "missing", "short", "noenc", "badkey"):
         P.append(new_plan(rng, [op_m1(rng, **c0), op_m3_honest(rng, "ok", **c0), op_m5(rng, "sess", sub, **c0),
                                 op_m5(rng, "sess", "valid", **c0)]))
+    # the identity that gets recorded must be the one SEALED in the M5: unauthenticated outer items naming somebody
+    # else (a man in the middle can add them), an identifier split over two TLV fragments
+    for sub in ("outer-id", "split-id"):
+        for conn in (0, 1):
+            P.append(new_plan(rng, [op_m1(rng, **c0), op_m3_honest(rng, "ok", **c0), op_m5(rng, "sess", sub, conn=conn)]))
+    P.append(new_plan(rng, [op_m1(rng, **c0), op_m3_deg(rng, 1, **c0), op_m5(rng, "s0", "outer-id", **c0)]))
     # M3 lacking a field (each A kind) right after a successful / failed M3 of the same exchange, on the same and
     # on a second connection, followed by M5 under each key a peer could try
     akinds = [lambda c: op_m3_honest(rng, "ok", conn=c), lambda c: op_m3_honest(rng, "wrong", conn=c),
@@ -203,6 +222,15 @@ def boundary_plans(rng) -> List[Dict[str, Any]]:
                                      op_m5_replay(rng, 0, **c0), op_m5_replay(rng, 1, **c0)]))
     P.append(new_plan(rng, [op_unpair(rng), op_m1(rng, **c0), op_m5_replay(rng, 0, **c0)], prepaired=True))
     P.append(new_plan(rng, [op_m1(rng, **c0), op_m3_honest(rng, "ok", **c0), op_unpair(rng), op_m5(rng, "sess", "valid", **c0)]))
+    # object lifecycle: the driver is started, stopped and started again — nothing of an exchange may be gained by it
+    P.append(new_plan(rng, [op_life(rng, ("start",))] + done() + [op_life(rng, ("start", "stop", "start")), op_m5_replay(rng, 0, **c0),
+                                                                   op_m3_replay(rng, 0, **c0), op_m5_replay(rng, 0, **c0)]))
+    P.append(new_plan(rng, [op_life(rng, ("start",)), op_m1(rng, **c0), op_m3_honest(rng, "ok", **c0), op_life(rng, ("stop", "start")),
+                            op_m5(rng, "sess", "valid", conn=1)]))
+    P.append(new_plan(rng, [op_life(rng, ("start",)), op_m1(rng, **c0), op_m3_deg(rng, 1, **c0), op_life(rng, ("stop", "start")),
+                            op_m5(rng, "s0", "valid", conn=1)]))
+    P.append(new_plan(rng, [op_life(rng, ("start", "stop", "start")), op_m5(rng, "s0", "valid", **c0), op_m1(rng, **c0),
+                            op_life(rng, ("stop", "start")), op_m5(rng, "s0", "valid", **c0)]))
     # dispatch edge cases
     P.append(new_plan(rng, [op_seq(rng, b, **c0) for b in (0, 2, 4, 6, 7, 255, None, "long")] +
                       [op_raw(rng, b"", **c0), op_raw(rng, b"\x06", **c0), op_raw(rng, b"\x06\x05\x01", **c0)]))
@@ -289,13 +317,16 @@ def random_plan(rng) -> Dict[str, Any]:
             n_m3 += 1
         elif r < 0.86:
             ops.append(op_m5(rng, rng.choice(["sess", "sess", "good", "s0", "s0", "lastA", "random"]),
-                             rng.choice(["valid"] * 6 + ["badsig", "wrongid", "malformed", "missing", "short", "noenc", "badkey"])))
+                             rng.choice(["valid"] * 6 + ["badsig", "wrongid", "malformed", "missing", "short", "noenc", "badkey",
+                                                         "outer-id", "split-id"])))
             n_m5 += 1
         elif r < 0.90 and n_m5:
             ops.append(op_m5_replay(rng, rng.randrange(n_m5)))
             n_m5 += 1
-        elif r < 0.95:
+        elif r < 0.93:
             ops.append(op_seq(rng, rng.choice([0, 2, 4, 6, 7, 9, 255, None, "long"])))
+        elif r < 0.95:
+            ops.append(op_life(rng, rng.choice([("start",), ("stop", "start"), ("start", "stop", "start")])))
         else:
             ops.append(op_raw(rng, _rb(rng, rng.choice([0, 1, 2, 3, 9, 40]))))
         if ops[-1]["op"] == "M3" and ops[-1]["mode"] in ("honest", "deg", "replay") and rng.random() < 0.2:
@@ -363,6 +394,7 @@ def run_item(item) -> List[Dict[str, Any]]:
 def run_plan(plan: Dict[str, Any], env=None) -> Dict[str, Any]:
     """Concretise and run a plan; judge it with the C01 oracle.  Pure function of the plan (and of what ran
     before it in the same process, for worlds)."""
+    from cryptography.hazmat.primitives import serialization
     from cryptography.hazmat.primitives.asymmetric import ed25519
 
     code = plan["code"].encode()                                # the accessory's setup code (what the oracle uses)
@@ -385,6 +417,10 @@ def run_plan(plan: Dict[str, Any], env=None) -> Dict[str, Any]:
     code_key = None       # K of a client that used the CORRECT code on the current exchange's latest M3
     last_m3_kind = "none"
     demo_elsewhere = False
+    # the ghost of the C01 theorems (Proofs/PairSetupOrigin.lean: Exch / demoA, goodM3), recomputed here from the wire
+    # with the reference SERVER formulas: open exchange = (code, salt, b) of the latest M2, demonstrating A
+    g_open: Optional[tuple] = None
+    g_demoA: Optional[bytes] = None
     viol: List[List[str]] = []
     kinds: List[str] = []
     outs: List[str] = []
@@ -393,12 +429,22 @@ def run_plan(plan: Dict[str, Any], env=None) -> Dict[str, Any]:
             salt, secret = bytes.fromhex(op["salt"]), bytes.fromhex(op["secret"])
             is_demo = False
             idents = []
+            sealed_identity = None   # (identifier, long-term key) inside the sealed sub-TLV of an M5 built here
             kind = op["op"]
             m5_key, m5_public = None, False
             if op["op"] == "unpair":
                 r = sc.unpair()
                 kinds.append("unpair")
                 outs.append("unpaired" if not r["paired"] else "still-paired")
+                continue
+            if op["op"] == "life":
+                for k in op["seq"]:
+                    try:
+                        sc.lifecycle(k)
+                        outs.append("lifecycle")
+                    except Exception as ex:  # noqa: BLE001  (not C01's business; the script goes on)
+                        outs.append("lifecycle-raises-" + type(ex).__name__)
+                    kinds.append("lifecycle-" + k)
                 continue
             if op["op"] == "M1":
                 items = [(pc.T_STATE, b"\x01"), (pc.T_METHOD, b"\x00")]
@@ -518,8 +564,22 @@ def run_plan(plan: Dict[str, Any], env=None) -> Dict[str, Any]:
                         d = pc.parse(sub)
                         sub = tlv8.encode([(pc.T_IDENTIFIER, ident), (pc.T_PUBLIC_KEY, ltpk[:31]),
                                            (pc.T_SIGNATURE, d[pc.T_SIGNATURE])])
+                    elif s == "split-id":
+                        d = pc.parse(sub)
+                        sub = tlv8.encode([(pc.T_IDENTIFIER, ident[:10]), (pc.T_IDENTIFIER, ident[10:]), (pc.T_PUBLIC_KEY, ltpk),
+                                           (pc.T_SIGNATURE, d[pc.T_SIGNATURE])])
                     idents.append(ident)
-                    if s == "noenc":
+                    sealed_identity = (ident, ltpk)
+                    if s == "outer-id":
+                        # somebody who has seen no key at all adds his own identity OUTSIDE the sealed data
+                        mitm = ed25519.Ed25519PrivateKey.from_private_bytes(hashlib.sha256(bytes.fromhex(op["ctrl_seed"])).digest())
+                        mitm_pk = mitm.public_key().public_bytes(serialization.Encoding.Raw, serialization.PublicFormat.Raw)
+                        mitm_id = ("%08X-0000-4000-8000-%012X" % (0xFEEDFACE, int(op["ctrl_seed"][:12], 16))).encode()
+                        idents.append(mitm_id)
+                        body = tlv8.encode([(pc.T_STATE, b"\x05"), (pc.T_IDENTIFIER, mitm_id), (pc.T_PUBLIC_KEY, mitm_pk),
+                                            (pc.T_SIGNATURE, mitm.sign(mitm_id + mitm_pk)),
+                                            (pc.T_ENCRYPTED, pc.seal(pc.m5_key(K), b"PS-Msg05", sub))])
+                    elif s == "noenc":
                         body = tlv8.encode([(pc.T_STATE, b"\x05")])
                     elif s == "short":
                         body = tlv8.encode([(pc.T_STATE, b"\x05"), (pc.T_ENCRYPTED, bytes.fromhex(op["rand"])[:9])])
@@ -547,6 +607,16 @@ def run_plan(plan: Dict[str, Any], env=None) -> Dict[str, Any]:
                                 and code_key is not None and m5_key == code_key)
             r = sc.send(body, salt, secret, conn=op["conn"], idents=idents)
             o = outputs(r)
+            # ---- the specification predicate "this request is an M3 carrying the proof expected for its A, A != 0 mod N,
+            # in the open exchange of an unpaired accessory", evaluated by the reference (never by pyhap / the model)
+            tq = pc.parse(body) or {}
+            ref_good = False
+            if (tq.get(pc.T_STATE) == b"\x03" and pc.T_PUBLIC_KEY in tq and pc.T_PROOF in tq and g_open is not None
+                    and not r["paired_before"] and ref.b2i(tq[pc.T_PUBLIC_KEY]) % ref.N != 0):
+                if len(g_open) == 3:   # v and B of this exchange, once
+                    v_ = pow(ref.G, ref.x_of(g_open[1], g_open[0]), ref.N)
+                    g_open = g_open + ((v_, ref.i2b((ref.k_mult() * v_ + pow(ref.G, g_open[2], ref.N)) % ref.N)),)
+                ref_good = ref.server_expected(g_open[0], g_open[1], g_open[2], tq[pc.T_PUBLIC_KEY], vB=g_open[3])[1] == tq[pc.T_PROOF]
             # ---- the oracle: exactly what C01 states
             if o["O1"] and not is_demo:
                 viol.append([
@@ -573,10 +643,22 @@ def run_plan(plan: Dict[str, Any], env=None) -> Dict[str, Any]:
                     f"{kind} is accepted: the accessory's session key is one anybody can compute (S = 0) or guess, so the "
                     f"peer that gets paired has demonstrated nothing; pairings now: {len(r['paired'])}",
                 ])
+            if o["O3"] and sealed_identity is not None:
+                # pairing origin: what gets recorded is the identity SEALED in the M5 under the session key, nothing else
+                want = [hx(str(uuid_mod.UUID(sealed_identity[0].decode())).encode()), hx(sealed_identity[1]), 1] \
+                    if pe.uuid_canonical(sealed_identity[0]) else None
+                new = [e for e in r["paired"] if e not in r["paired_before"]]
+                if any(e != want for e in new):
+                    viol.append([
+                        "C01:recorded-pairing-is-not-the-identity-sealed-in-M5",
+                        f"{kind} records {new!r} but the M5 sealed under the session key carries {want!r}: a party that "
+                        f"never held the session key (hence not the code) is registered as a controller",
+                    ])
             # ---- ghost update
             t = _parse(r) or {}
             if t.get(pc.T_STATE) == b"\x02" and pc.T_ERROR not in t and pc.T_SALT in t and pc.T_PUBLIC_KEY in t:
                 cur = (t[pc.T_SALT], t[pc.T_PUBLIC_KEY])
+                g_open, g_demoA = (code, t[pc.T_SALT], ref.b2i(secret)), None
                 xch += 1
                 consumed = False
                 demo_elsewhere = demo_elsewhere or demo
@@ -590,7 +672,12 @@ def run_plan(plan: Dict[str, Any], env=None) -> Dict[str, Any]:
                 # new, M3 or M5) counts for "this very exchange" until the accessory issues a new M2.
                 consumed, demo_elsewhere = True, demo_elsewhere or demo
                 demo, cur, code_key, good_client = False, None, None, None
+                g_open, g_demoA = None, None
                 xch += 1
+            elif ref_good and not (t.get(pc.T_STATE) == b"\x02" and pc.T_ERROR not in t):
+                g_demoA = tq[pc.T_PUBLIC_KEY]
+            sc.results[-1]["ghost"] = {"good": ref_good, "exch": None if g_open is None else hx(g_open[1]),
+                                       "demoA": None if g_demoA is None else hx(g_demoA)}
             kinds.append(kind)
             outs.append(_outcome(r, t, o))
         return {"line": sc.model_line(), "impl": sc.impl_view(), "viol": viol, "kinds": kinds, "outs": outs,
@@ -692,7 +779,9 @@ def run(ctx: Ctx):
     rng = ctx.rng
     st.rule = (
         "streams: script (request sequences over the C01 menu on one accessory, 1-2 connections, real crypto; per op "
-        "HTTP status, content type, body bytes, pairing_changed, paired_clients compared with PairSetup.lean) and numeric "
+        "HTTP status, content type, body bytes, pairing_changed, paired_clients compared with PairSetup.lean; plus the "
+        "SPECIFICATION side of the theorems — goodM3 of each request and the ghost (open exchange, demonstrating A) — compared "
+        "with the same notions recomputed from the wire by the reference server formulas) and numeric "
         "(hsrp.Server on A = 0 mod N vs Srp.lean).  A script is non-trivial if some request reaches a refusing or "
         "state-changing branch of the handler (all non-empty scripts do); distinct by the request bodies."
     )
@@ -745,7 +834,7 @@ def run(ctx: Ctx):
     for ln, m, i, tag in zip(lines, model, impl, tags):
         st.traces_validated += 1
         if tag[0] == "script":
-            mv = pe.model_view(m)
+            mv = pe.model_view(m, ghost=True)
         else:
             mv = {k: m.get(k) for k in i} if "err" not in i else m
         if mv != i:
@@ -753,7 +842,7 @@ def run(ctx: Ctx):
 
     for n in (0, 20, len(plans) - 1):
         st.sample({"script": results[n]["kinds"], "impl": results[n]["outs"],
-                   "model_agrees": pe.model_view(model[n]) == impl[n], "oracle": results[n]["viol"] or "ok"})
+                   "model_agrees": pe.model_view(model[n], ghost=True) == impl[n], "oracle": results[n]["viol"] or "ok"})
 
 
 def _diff(m, i):
